@@ -232,6 +232,8 @@ func asciiHosts(k int, port string) []hostVec {
 		id(fmt.Sprintf("MiXed%d.ExAmple.COM:8443", k), "mixed-case-port"),
 		id("[::1]:"+port, "v6-literal"),
 		id("[2001:db8::7]:8443", "v6-literal"),
+		id("[2001:db8::7]", "v6-literal-no-port"),
+		id("[::1]", "v6-literal-no-port"),
 		id("127.0.0.1:"+port, "v4-literal"),
 		id("xn--bcher-kva.example", "a-label"),
 		id("xn--bcher-kva.example:8443", "a-label-port"),
@@ -1133,11 +1135,32 @@ func (c *ctx) templateSequence(seq, steps int) {
 	os.MkdirAll(dir, 0o755)
 	path := filepath.Join(dir, "callback.tmpl")
 	st := tstate{kind: "missing"}
+	// stealth sequences: every version of the file has the same size and the same
+	// modification time (as cp -p, rsync -t or a deploy tool restoring timestamps leave it),
+	// so that only really re-reading the file can tell the versions apart
+	stealth := seq%2 == 1
+	fixed := time.Date(2024, 3, 25, 12, 0, 0, 0, time.UTC)
+	pad := func(content string) string {
+		if !stealth || content == "" || len(content) >= 700-9 {
+			return content
+		}
+		return content + "{{/*" + strings.Repeat("p", 700-9-len(content)) + "*/}}"
+	}
+	settle := func(p string) {
+		if stealth {
+			os.Chtimes(p, fixed, fixed)
+		}
+	}
 	write := func(content string) error {
 		if fi, err := os.Lstat(path); err == nil && fi.IsDir() {
 			os.RemoveAll(path)
 		}
-		return os.WriteFile(path, []byte(content), 0o644)
+		err := os.WriteFile(path, []byte(pad(content)), 0o644)
+		settle(path)
+		return err
+	}
+	if stealth {
+		r.Count("template_stealth_sequences", 1)
 	}
 	if rng.IntN(2) == 0 {
 		st = tstate{kind: "valid-A", nonce: seq*1000000 + 999999}
@@ -1177,7 +1200,8 @@ func (c *ctx) templateSequence(seq, steps int) {
 			}
 			if kind == "rename-in" {
 				tmp := path + ".new"
-				if ferr = os.WriteFile(tmp, []byte(ns.content), 0o644); ferr == nil {
+				if ferr = os.WriteFile(tmp, []byte(pad(ns.content)), 0o644); ferr == nil {
+					settle(tmp)
 					if fi, err := os.Lstat(path); err == nil && fi.IsDir() {
 						os.RemoveAll(path)
 					}
